@@ -142,6 +142,13 @@ func (e *Engine) targetsFor(prop string) (funcs []string, lemmas []*LemmaDef) {
 				}
 			}
 		}
+		for _, cls := range ct.Asserts {
+			for _, cl := range cls {
+				if hasProp(cl.Props, prop) {
+					use = true
+				}
+			}
+		}
 		if use {
 			funcs = append(funcs, key)
 		}
